@@ -191,6 +191,7 @@ func c06(c *Ctx) {
 	r.Floor("R6.4", n64, 4)
 	c.checkNoReaderGlobals()
 	c.checkPreloadDispatchError()
+	c.checkPreloadErrorFlow()
 	c.R.Rule("R6.6", "a reader handed out by the size query is positioned at the start (same check as R4.7): the preload drains the stream the builder splices together, and a child reader left at its end contributes nothing — its blocks would never be fetched")
 	c.checkSizeQueryRewinds("R6.6")
 }
@@ -679,7 +680,7 @@ func (c *Ctx) checkWalkComplete(W *ssa.Function, fetch map[*ssa.Function]bool) {
 			if !ok || pred == nil || call.Call.StaticCallee() != pred {
 				continue
 			}
-			if lnk != nil && call.Call.Args[0] != lnk {
+			if lnk != nil && unbox(call.Call.Args[0]) != unbox(lnk) {
 				continue
 			}
 			if found == nil || iff2.Pos() < found.Pos() {
@@ -993,4 +994,50 @@ func (c *Ctx) checkPreloadDispatchError() {
 	}
 	visit(fp, 0)
 	r.Floor("R6.7", n, 2)
+}
+
+// checkPreloadErrorFlow implements R6.8: C12's propagation rule on every reader-package function the preload reifier can
+// reach — a load error swallowed anywhere below the preload makes it succeed although a block is missing.
+func (c *Ctx) checkPreloadErrorFlow() {
+	r := c.R
+	r.Rule("R6.8", "error propagation below the preload: in every reader-package function reachable from the \"unixfs-preload\" registry entry, each call that can reach a block load and returns an error has that error propagated on every path (the R12.1 rule restricted to what the preload runs)")
+	reg, _ := c.reifierRegistry()
+	fp := reg["unixfs-preload"]
+	if fp == nil {
+		return
+	}
+	L, _ := c.loadCarrying(core.ReaderPkgs, core.FetchSites)
+	reachable, _ := c.G.Reach(fp)
+	n := 0
+	for _, fn := range core.SortedFuncs(reachable) {
+		rel, ok := c.P.PkgOf(fn)
+		if !ok || !core.ReaderPkgs[rel] || fn.Synthetic != "" || !c.P.HandWritten(fn) {
+			continue
+		}
+		if core.ErrResultIndex(fn.Signature) < 0 {
+			continue // no error channel: judged by C12's interface-imposed exemptions
+		}
+		for _, call := range core.CallsIn(fn) {
+			is, why := c.carrier(fn, call, L, fetchSiteKind)
+			if !is {
+				continue
+			}
+			n++
+			key := callKey(c.P, fn, call)
+			probs, noErr, complete := core.CheckErrPropagated(fn, call)
+			if !complete {
+				r.Undecided("R6.8", key, c.P.Pos(call.Pos()), "path enumeration exceeded its bound")
+				continue
+			}
+			if noErr {
+				continue
+			}
+			var ss []string
+			for _, p := range probs {
+				ss = append(ss, fmt.Sprintf("%s [return at %s]", p.What, c.P.Pos(p.Pos)))
+			}
+			r.Check(len(probs) == 0, "R6.8", key, c.P.Pos(call.Pos()), "load error propagated", "a load error below the preload is not reported ("+why+"): "+uniqJoin(ss))
+		}
+	}
+	r.Floor("R6.8", n, 10)
 }
